@@ -851,16 +851,18 @@ func (h *H) flateLZWRoundTrips() {
 
 // ---------------------------------------------------------------- CCITTFax
 
+// ccittClass names the parameter classes that used to fail (DESIGN.md 5, F8 S1-S3; fixed by F43-F45);
+// they are ordinary requirements now and the name only labels the input distribution.
 func ccittClass(f pdf.FilterCCITTFax) string {
 	switch {
 	case f.EncodedByteAlign && (!f.EndOfLine || f.K < 0):
-		return "ccitt-S3-EncodedByteAlign"
+		return "ccitt-byte-align-without-eol"
 	case f.K > 0 && f.Rows == 0 && !f.IgnoreEndOfBlock:
-		return "ccitt-S2-K-positive-no-Rows"
+		return "ccitt-k-positive-no-rows"
 	case f.IgnoreEndOfBlock:
-		return "ccitt-S1-EndOfBlock-false"
+		return "ccitt-end-of-block-false"
 	}
-	return ""
+	return "ccitt-plain"
 }
 
 // image rows; padding bits of each row are zero
@@ -928,7 +930,7 @@ func (h *H) ccittImage(cols, rows int, blackIs1 bool) []byte {
 
 func (h *H) ccitt() {
 	e := h.e
-	colsList := []int{1, 5, 8, 13, 40, 61, 64, 65, 128, 130, 200, 256, 1728}
+	colsList := []int{1, 2, 3, 5, 7, 8, 9, 13, 40, 61, 63, 64, 65, 128, 130, 200, 256, 1728, 1792, 2560, 2561, 2700, 5200}
 	per := e.Pick(40, 150)
 	for _, K := range []int{-1, 0, 1, 2, 4} {
 		for _, eol := range []bool{false, true} {
@@ -980,18 +982,47 @@ func (h *H) ccittCase(f pdf.FilterCCITTFax, data []byte, cols, rows int) {
 	ok := err == nil && bytes.Equal(dec, data)
 	label := fmt.Sprintf("K=%d EndOfLine=%v EncodedByteAlign=%v EndOfBlock=%v Rows=%d Columns=%d BlackIs1=%v", f.K, f.EndOfLine, f.EncodedByteAlign, !f.IgnoreEndOfBlock, f.Rows, cols, f.BlackIs1)
 	if !ok {
-		sig := class
-		if sig == "" {
-			sig = fmt.Sprintf("rt-ccitt-K%d-eol%s-align%s-eob%s-rows%s", sgn(f.K), b01(f.EndOfLine), b01(f.EncodedByteAlign), b01(!f.IgnoreEndOfBlock), b01(f.Rows > 0))
-		}
+		sig := fmt.Sprintf("rt-ccitt-K%d-eol%s-align%s-eob%s-rows%s", sgn(f.K), b01(f.EndOfLine), b01(f.EncodedByteAlign), b01(!f.IgnoreEndOfBlock), b01(f.Rows > 0))
 		h.fail(sig, fmt.Sprintf("CCITTFax %s: decode(encode(image)) != image (%d rows; got %d bytes for %d, err=%v)", label, rows, len(dec), len(data), err),
 			map[string]any{"filter": fmt.Sprintf("%#v", f), "cols": cols, "rows": rows, "data": common.Hex(data)})
 	}
-	cl := class
-	if cl == "" {
-		cl = "ccitt-required"
+	if f.K == 0 && (cols <= 300 || e.Rand.IntN(4) == 0) {
+		h.g3ModelLines(f, data, enc, dec, err, cols, class)
 	}
-	e.Count(true, label+common.Hex(data), fmt.Sprintf("%s:%s", cl, map[bool]string{true: "ok", false: "fail"}[ok]))
+	e.Count(true, label+common.Hex(data), fmt.Sprintf("%s:%s", class, map[bool]string{true: "ok", false: "fail"}[ok]))
+}
+
+// g3Spec names the parameters of the Coq model of Group 3 one-dimensional coding (K = 0); the row
+// limit is the one FilterCCITTFax.Decode hands to the reader.
+func g3Spec(f pdf.FilterCCITTFax, cols int) string {
+	geoMax := max(1, min(1<<16, (128<<20)/cols))
+	maxRows := geoMax
+	if f.Rows > 0 && f.Rows < geoMax {
+		maxRows = f.Rows
+	}
+	return fmt.Sprintf("g3:%d:%s:%s:%s:%s:%d", cols, b01(f.EndOfLine), b01(f.EncodedByteAlign), b01(f.BlackIs1), b01(f.IgnoreEndOfBlock), maxRows)
+}
+
+func (h *H) g3ModelLines(f pdf.FilterCCITTFax, data, enc, dec []byte, err error, cols int, class string) {
+	e := h.e
+	spec := g3Spec(f, cols)
+	// impl-encode -> model-decode
+	id := h.id("g")
+	e.Line("cases.txt", "%s D %s %s", id, spec, common.Hex(enc))
+	dec1, err1 := h.implDecode(f, pdf.V1_7, enc, false)
+	e.Line("impl.obs", "%s %s", id, obsOf(dec1, err1))
+	// model-encode -> impl-decode (phase 2)
+	id = h.id("e")
+	e.Line("cases.txt", "%s E %s %s", id, spec, common.Hex(data))
+	// damaged code streams
+	for i := 0; i < 2; i++ {
+		m := h.mutate(enc)
+		out, merr := h.implDecode(f, pdf.V1_7, m, false)
+		id := h.id("n")
+		e.Line("cases.txt", "%s D %s %s", id, spec, common.Hex(m))
+		e.Line("impl.obs", "%s %s", id, obsOf(out, merr))
+		e.Count(true, "mutg3"+spec+common.Hex(m), "mutant:g3")
+	}
 }
 
 func sgn(k int) int {
@@ -1029,8 +1060,9 @@ func (h *H) stage() pdf.Filter {
 	case 7:
 		return pdf.FilterCompress{}
 	default:
-		// CCITTFax outside the classes with known defects; eight pixels per row
-		return pdf.FilterCCITTFax{K: []int{-1, 0}[e.Rand.IntN(2)], Columns: 8, EndOfLine: e.Rand.IntN(2) == 0, BlackIs1: e.Rand.IntN(2) == 0}
+		// CCITTFax, eight pixels per row so that any input is whole rows
+		return pdf.FilterCCITTFax{K: []int{-1, 0, 2}[e.Rand.IntN(3)], Columns: 8, EndOfLine: e.Rand.IntN(2) == 0, EncodedByteAlign: e.Rand.IntN(3) == 0,
+			IgnoreEndOfBlock: e.Rand.IntN(4) == 0, BlackIs1: e.Rand.IntN(2) == 0}
 	}
 }
 
@@ -1180,6 +1212,12 @@ func filterFor(spec string) (pdf.Filter, *predict.Params) {
 		return pdf.FilterLZW{OffByOne: true}, nil
 	}
 	parts := strings.Split(spec, ":")
+	if len(parts) == 7 && parts[0] == "g3" {
+		cols, _ := strconv.Atoi(parts[1])
+		rows, _ := strconv.Atoi(parts[6])
+		return pdf.FilterCCITTFax{K: 0, Columns: cols, EndOfLine: parts[2] == "1", EncodedByteAlign: parts[3] == "1",
+			BlackIs1: parts[4] == "1", IgnoreEndOfBlock: parts[5] == "1", Rows: rows}, nil
+	}
 	if len(parts) == 4 {
 		c, _ := strconv.Atoi(parts[1])
 		b, _ := strconv.Atoi(parts[2])
